@@ -147,10 +147,12 @@ def WCB.pushIf (w : WCB) (use : Bool) (b : Bounds) : WCB × Bool :=
 
 /-- `#ident #type_g` as tokens and as a type -/
 def thisTyToks (name : String) (g : Generics) : Toks := name :: g.useToks
+/-- a generic parameter in argument position: `'a`, `T`, `N` -/
+def paramArg : GParam → GArg
+  | .lt n _ => .lt n
+  | p => .ty (Ty.simple p.name)
 def thisTy (name : String) (g : Generics) : Ty :=
-  .path false [.mk name ((ltFirst g.params).map fun
-    | .lt n _ => GArg.lt n
-    | p => GArg.ty (Ty.simple p.name))]
+  .path false [.mk name ((ltFirst g.params).map paramArg)]
 
 /-! ## `DeriveEntry` -/
 
